@@ -28,3 +28,27 @@ Definition arr_divisors_okQ (cs pl nc : list nat) (levels : list level) (roots :
   forallb (fun d => negb (Qeq_bool d 0))
           (divisors Q qadd qsub qmul qdiv 0 1 ly (ops_of_idx ly levels roots)
                     (arr_storeQ mask ncomp es v vt ct dt group child_inds par_inds)).
+
+(* the M-matrix-like property of the assembled arrays (Proofs/HinesArrPositive.v: under it no
+   operation of an accepted schedule divides by zero), decided over Q *)
+From JV Require Import HinesCheck.
+Definition qle0 (a : Q) : bool := Qle_bool a 0.
+Definition qlt (a b : Q) : bool := negb (Qle_bool b a).
+Definition rowdomQ (ly : layout) (tp : topo) (s : store Q) (b k : nat) : bool :=
+  let i := (cs ly b + k)%nat in
+  let lo := if (k =? 0)%nat then 0 else lw s i in
+  let u := if (S k <? pl ly b)%nat then up s i else 0 in
+  let c1 := if (k =? 0)%nat then match pbp tp b with Some _ => cc s b | None => 0 end else 0 in
+  let c2 := if (k =? nc ly b - 1)%nat then match cbp tp b with Some _ => cp s b | None => 0 end else 0 in
+  qle0 lo && qle0 u && qle0 c1 && qle0 c2 && qlt (- (lo + u + c1 + c2)) (dg s i).
+Definition bpdomQ (tp : topo) (s : store Q) (j : nat) : bool :=
+  forallb (fun c => Qle_bool 0 (wc s c)) (kids tp j) && Qle_bool 0 (wp s (par tp j))
+  && Qle_bool (fold_right (fun c acc => wc s c + acc) 0 (kids tp j) + wp s (par tp j)) (- bd s j)
+  && qlt (wp s (par tp j)) (- bd s j).
+Definition arr_mstore_okQ (nb_ nbp_ : nat) (pbp_ cbp_ : list (option nat)) (kids_ : list (list nat)) (par_ : list nat)
+           (cs_ pl_ nc_ : list nat) (mask : list nat) (ncomp : nat) (es : list (nat * nat * nat * Q)) (v vt ct : list Q) (dt : Q)
+           (group child_inds par_inds : list nat) : bool :=
+  let ly := layoutL cs_ pl_ nc_ in
+  let tp := mktopo nb_ nbp_ (nthO pbp_) (nthO cbp_) (nthL kids_) (nthD par_) in
+  let s := arr_storeQ mask ncomp es v vt ct dt group child_inds par_inds in
+  forallb (fun b => forallb (rowdomQ ly tp s b) (seq 0 (pl ly b))) (seq 0 nb_) && forallb (bpdomQ tp s) (seq 0 nbp_).
